@@ -16,6 +16,7 @@ import (
 	"net/http"
 	"net/http/httptest"
 	"os"
+	"strconv"
 	"strings"
 	"sync"
 	"sync/atomic"
@@ -200,6 +201,36 @@ func readReq(raw string) *http.Request {
 	return req
 }
 
+// declLen: the Content-Length a (hostile) client declares for a body of n bytes: mostly honest, sometimes short, long or absurd
+func declLen(r *vc.Rand, n int) string {
+	if !r.Chance(12) {
+		return strconv.Itoa(n)
+	}
+	switch r.Intn(8) {
+	case 0:
+		return strconv.Itoa(n + 1)
+	case 1:
+		return strconv.Itoa(n + 1000)
+	case 2:
+		if n > 0 {
+			return strconv.Itoa(n - 1)
+		}
+		return "0"
+	case 3:
+		return "0"
+	case 4:
+		return "2147483648"
+	case 5:
+		return "1099511627776"
+	case 6:
+		return "9223372036854775806"
+	default:
+		return "9223372036854775807"
+	}
+}
+
+func atoi(s string) int { n, _ := strconv.Atoi(s); return n }
+
 // ---- entry 1: transcoded HTTP ----
 func httpCase(m *monitor, r *vc.Rand) (vc.Val, vc.Val, bool) {
 	method, url, hasBody := target(r)
@@ -216,13 +247,15 @@ func httpCase(m *monitor, r *vc.Rand) (vc.Val, vc.Val, bool) {
 	case 2:
 		hdr += "Grpc-Timeout: " + r.Pick([]string{"1S", "-1S", "x", "99999999999S", "1"}) + "\r\n"
 	}
-	raw := fmt.Sprintf("%s %s HTTP/1.1\r\nHost: x\r\n%sContent-Length: %d\r\n\r\n%s", method, url, hdr, len(body), body)
+	decl := declLen(r, len(body))
+	raw := fmt.Sprintf("%s %s HTTP/1.1\r\nHost: x\r\n%sContent-Length: %s\r\n\r\n%s", method, url, hdr, decl, body)
 	req := readReq(raw)
 	if req == nil {
 		return nil, nil, false
 	}
 	rec := httptest.NewRecorder()
-	current(vc.L{1, method + " " + url, body})
+	truncated := len(decl) > 10 || atoi(decl) > len(body) // fewer bytes arrive than were announced: a transport failure, not bad syntax
+	current(vc.L{1, method + " " + url, body, decl, truncated})
 	panicked := serve(m, rec, req)
 	class := 0
 	if panicked {
@@ -240,7 +273,7 @@ func httpCase(m *monitor, r *vc.Rand) (vc.Val, vc.Val, bool) {
 		}
 	}
 	_ = garbage
-	return vc.L{1, method + " " + url, body}, vc.L{class, rec.Code, wellFormed}, rec.Code == 200
+	return vc.L{1, method + " " + url, body, decl, truncated}, vc.L{class, rec.Code, wellFormed}, rec.Code == 200
 }
 
 // current is told the input before anything is served
@@ -308,13 +341,17 @@ func webCase(m *monitor, r *vc.Rand) (vc.Val, vc.Val, bool) {
 	if r.Chance(30) {
 		hdr = r.Pick([]string{"Grpc-Timeout: 1S\r\n", "Grpc-Timeout: -5S\r\n", "X-Grpc-Web: 1\r\n", "Grpc-Encoding: gzip\r\n", "Te: trailers\r\n", "Grpc-Timeout: \xff\r\n"})
 	}
-	raw := fmt.Sprintf("POST %s HTTP/1.1\r\nHost: x\r\nContent-Type: %s\r\n%sContent-Length: %d\r\n\r\n%s", path, ct, hdr, len(body), body)
+	decl := declLen(r, len(body))
+	if forcedBody != nil {
+		decl = strconv.Itoa(len(body))
+	}
+	raw := fmt.Sprintf("POST %s HTTP/1.1\r\nHost: x\r\nContent-Type: %s\r\n%sContent-Length: %s\r\n\r\n%s", path, ct, hdr, decl, body)
 	req := readReq(raw)
 	if req == nil {
 		return nil, nil, false
 	}
 	rec := httptest.NewRecorder()
-	current(vc.L{3, path + " " + ct, body})
+	current(vc.L{3, path + " " + ct, body, decl})
 	panicked := serve(m, rec, req)
 	class := 0
 	if panicked {
@@ -365,7 +402,7 @@ func webCase(m *monitor, r *vc.Rand) (vc.Val, vc.Val, bool) {
 			}
 		}
 	}
-	return vc.L{3, path + " " + ct, body}, vc.L{class, rec.Code, wellFormed}, status == 0
+	return vc.L{3, path + " " + ct, body, decl}, vc.L{class, rec.Code, wellFormed}, status == 0
 }
 
 // ---- entries 2 and 4: WebSockets (real TCP, gorilla client, raw frames where malformed ones are wanted) ----
